@@ -4,9 +4,9 @@ func init() {
 	register(&Check{
 		ID:    "C02",
 		Level: "exploration",
-		Rule: "every program with at least one `= name` capture of <= n nodes over {'a','b'}, maybe/at least 0/at most 2 (greedy and fewest), at least 1, `or`, groups, back-references to the 1st/2nd capture (driver D4), plus captures inside inline subroutines and calls (D4s), x every text over {a,b} up to length 5; " +
+		Rule: "every program with at least one `= name` capture of <= n nodes over {'a','b'}, maybe/at least 0/at most 2 (greedy and fewest), at least 1, `or`, groups, back-references to the 1st/2nd capture (driver D4), plus captures inside inline subroutines and calls (D4s), plus every way of naming one or two loops of every capture program of <= 5 nodes (D4n: bindings are then reported per iteration as lp/i/name and must equally be those of the successful path, in the innermost named loop), x every text over {a,b} up to length 5; " +
 			"spans AND the string variables of every match must equal the reference matcher's final environment; non-trivial = distinct (program,text) pairs where R reports a match that binds at least one variable",
-		Assume: []string{"reference matcher R (vmc/ref.go): bindings live in a persistent list, so an abandoned path cannot leak", "named-loop variable maps are outside this check (C03 checks their shape)"},
+		Assume: []string{"reference matcher R (vmc/ref.go): bindings live in a persistent list, so an abandoned path cannot leak", "named loops: only string leaves of the per-iteration maps are compared (empty per-iteration maps are an undocumented detail); back-references to names bound inside a named loop are not generated (undocumented, the engine resolves back-references in the outermost scope only)"},
 		Budget: map[string]int{"quick": 120, "thorough": 1500},
 		Run:    runC02,
 	})
@@ -82,9 +82,136 @@ func runC02(c *Ctx) {
 			}
 		}
 	}
+	// D4n: named loops. A capture made in iteration i of a loop named lp is reported as
+	// lp/i/<name>; bindings made on an abandoned path inside an iteration (an alternative,
+	// an optional group, an inner loop that gives back) must not stay in that map, and a
+	// binding belongs to the innermost named loop around it.
+	gn := &Gram{Atoms: []*T{lit("a"), lit("b")}, Or: true, Cap: true,
+		Loops: []LoopKind{{0, 1, false}, {0, -1, false}, {0, -1, true}, {1, -1, false}, {1, 2, false}}}
+	for n := 3; n <= c.Pick(5, 6); n++ {
+		if !c.Level("D4n:n=" + itoa(n)) {
+			return
+		}
+		for _, raw := range gn.Seqs(n) {
+			body := instantiate(raw, true)
+			if body == nil {
+				continue
+			}
+			for _, nb := range nameLoops(body) {
+				p := &Prog{Body: nb}
+				if c.Unit(func() string { return progDesc(p) }) {
+					c.Count("programs", 1)
+					c.Count("named_loop_programs", 1)
+					semUnit(c, "C02", p, txts, true, false)
+				}
+			}
+		}
+	}
+	if c.Level("D4n:fixed") {
+		for _, p := range d4nPrograms() {
+			p := p
+			if c.Unit(func() string { return progDesc(p) }) {
+				c.Count("programs", 1)
+				c.Count("named_loop_programs", 1)
+				semUnit(c, "C02", p, txts, true, false)
+			}
+		}
+	}
 	if !c.Quick() {
 		runGramC02(c, "D4r", gramD4(true), 6, txts)
 	}
+}
+
+// nameLoops returns every copy of body in which one or two of its loops carry a name
+// (lp for the first named loop in source order, lq for the second) and at least one
+// capture sits inside a named loop.
+func nameLoops(body []*T) [][]*T { return nameLoopsOpt(body, true) }
+
+func nameLoopsOpt(body []*T, needCap bool) [][]*T {
+	nloops := 0
+	var count func(ts []*T)
+	count = func(ts []*T) {
+		for _, t := range ts {
+			if t.K == LOOP {
+				nloops++
+			}
+			count(t.Kids)
+		}
+	}
+	count(body)
+	var out [][]*T
+	for mask := 1; mask < 1<<nloops; mask++ {
+		if bitsSet(mask) > 2 {
+			continue
+		}
+		idx, named, capInside, bad := 0, 0, false, false
+		var cp func(t *T, in bool) *T
+		cp = func(t *T, in bool) *T {
+			c := *t
+			c.Kids = nil
+			if t.K == LOOP {
+				if mask&(1<<idx) != 0 && t.Min == 0 && t.Max == 1 {
+					bad = true // `maybe` takes no name
+				}
+				if mask&(1<<idx) != 0 {
+					c.S = []string{"lp", "lq"}[named]
+					named++
+					in = true
+				}
+				idx++
+			}
+			if t.K == CAP && in {
+				capInside = true
+			}
+			for _, kid := range t.Kids {
+				c.Kids = append(c.Kids, cp(kid, in))
+			}
+			return &c
+		}
+		var nb []*T
+		for _, t := range body {
+			nb = append(nb, cp(t, false))
+		}
+		if (capInside || !needCap) && !bad {
+			out = append(out, nb)
+		}
+	}
+	return out
+}
+
+func bitsSet(m int) int {
+	n := 0
+	for ; m != 0; m &= m - 1 {
+		n++
+	}
+	return n
+}
+
+// named loops around calls, inside subroutines and nested three deep
+func d4nPrograms() []*Prog {
+	call := func(n string) *T { return &T{K: CALL, S: n} }
+	sub := func(n string, k ...*T) *T { return &T{K: SUBDEF, S: n, Kids: k} }
+	nl := func(name string, min, max int, fewest bool, b *T) *T {
+		l := loop(min, max, fewest, b)
+		l.S = name
+		return l
+	}
+	a, b := lit("a"), lit("b")
+	bodies := [][]*T{
+		{sub("s", capt(a, "x")), nl("lp", 0, -1, false, seq(call("s"), loop(0, 1, false, b)))},
+		{nl("lp", 1, -1, false, seq(sub("s", or(seq(capt(a, "x"), b), seq(a, a)))))},
+		{nl("lo", 1, -1, false, seq(nl("lm", 1, -1, false, seq(nl("li", 1, 2, false, capt(a, "x")), loop(0, 1, false, capt(b, "y")))), loop(0, 1, false, capt(a, "z"))))},
+		{nl("lo", 0, -1, false, seq(capt(or(a, b), "x"), nl("li", 0, -1, true, capt(a, "y")), b))},
+		{capt(a, "x"), nl("lp", 0, -1, false, or(seq(capt(b, "y"), a), b)), ref("x")},
+		{nl("lp", 0, -1, false, seq(loop(0, -1, false, capt(a, "x")), b)), nl("lq", 0, 2, false, capt(a, "y"))},
+		{loop(0, -1, false, seq(nl("lp", 1, -1, false, capt(a, "x")), b))},
+		{nl("lp", 1, -1, true, seq(capt(loop(0, -1, true, a), "x"), b)), a},
+	}
+	var out []*Prog
+	for _, bd := range bodies {
+		out = append(out, &Prog{Body: bd})
+	}
+	return out
 }
 
 func semUnitVars(c *Ctx, p *Prog, txts []string) {
